@@ -43,12 +43,8 @@ def check_read(mols, order, ids, entry, acc):
         found.append(('reader-exception', '%s: %s' % (type(e).__name__, e), 'reader', {}))
     if g is not None:
         exp = sorted((m, int(l), sorted(p)) for m, l, p in mols if p and (not ids or m in ids))
-        if sorted(g) != exp:
+        if sorted(g) != exp:        # the order of the returned list is not part of the statement
             found.append(('maps-differ', 'got %s expected %s' % (g, exp), 'reader', {}))
-        elif g != exp:
-            found.append(('maps-not-in-ascending-id-order', 'got %s' % g, 'reader', {}))
-        if any(type(o.length) is not int for o in got):
-            found.append(('length-not-truncated-to-int', str([o.length for o in got]), 'reader', {}))
     if acc is not None:
         acc.evals += 1
         acc.transitions += 1
